@@ -179,6 +179,35 @@ def render_a(idx, kinds, err):
 """
 
 
+def render_wrong_order(idx, first, second, stub):
+    """Ordered patterns on two methods (and an unordered stub on a third, or none): the second is
+    called first; the message names the pattern in line by source text and location."""
+    stub_clause = f"Mk::{stub}.each_call(matching!(_)).returns(9u32)," if stub else ""
+    stub_call = f"let _ = u.{stub}(5);" if stub else ""
+    return f"""    #[unimock(api=Mk)]
+    pub trait Tr {{
+        fn f(&self, a: u8) -> u32;
+        fn g(&self, a: u8) -> u32;
+        fn h(&self, a: u8) -> u32;
+    }}
+    pub fn run() -> Result<(), String> {{
+        let line = line!() + 3;
+        let u = Unimock::new((
+            {stub_clause}
+            Mk::{first}.next_call(matching!(1)).returns(1u32),
+            Mk::{second}.next_call(matching!(2)).returns(2u32),
+        )).no_verify_in_drop();
+        {stub_call}
+        let r = vh::obs::catch(|| u.{second}(2));
+        let expect = format!("Tr::{second}(2): Method matched in wrong order. Expected a call matching Tr::{first}(1) at {{}}:{{}}.", file!(), line);
+        match r {{
+            Err(msg) if msg == expect => Ok(()),
+            other => Err(format!("expected the message {{expect:?}}, observed {{other:?}}")),
+        }}
+    }}
+"""
+
+
 def render_trait_generic(idx, bound_form, err):
     """A generic *trait*: Debug bound inline, in a where-clause, or absent."""
     decl = {"inline": "pub trait Tr<T: core::fmt::Debug + 'static>", "where": "pub trait Tr<T> where T: core::fmt::Debug + 'static",
@@ -283,6 +312,9 @@ def render_b(idx, pats, mode):
         if not rej:
             continue
         exp = ", ".join(f'({p}, "{mismatch_kind(pats[p])}", "{vals[p]}")' for p in rej)
+        if mode == "unordered3":
+            # a third pattern (all 9s) rejects every position
+            exp += ", " + ", ".join(f'({p}, "Pattern", "{vals[p]}")' for p in range(n))
         cases.append(f"(vec![{', '.join(str(v) + 'u8' for v in vals)}], vec![{exp}])")
     if mode == "unordered":
         new = f"Unimock::new(clause)"
@@ -293,6 +325,14 @@ def render_b(idx, pats, mode):
         # a second pattern that rejects everything: entries are labelled with the pattern index
         new = "Unimock::new(clause)"
         clause = f"let (clause, line) = (Mk::f.stub(|each| {{ each.call(matching!({pat_text})).returns(1u32); each.call(&|m| {{ m.func(|_, _| false); }}).returns(2u32); }}), line!());"
+        head = "No matching call patterns."
+        prefix = ""
+    elif mode == "unordered3":
+        # three patterns: a hand-written matcher that rejects without reporting, the pattern under
+        # test, and one that rejects every position: entries carry the index of *their* pattern
+        new = "Unimock::new(clause)"
+        nines = ", ".join("9" for _ in pats)
+        clause = f"let (clause, line) = (Mk::f.stub(|each| {{ each.call(&|m| {{ m.func(|_, _| false); }}).returns(0u32); each.call(matching!({pat_text})).returns(1u32); each.call(matching!({nines})).returns(2u32); }}), line!());"
         head = "No matching call patterns."
         prefix = ""
     elif mode == "ordered2":
@@ -321,6 +361,14 @@ def render_b(idx, pats, mode):
     rendered = ', '.join('{}' for _ in range(n))
     rendered_args = ", ".join(f"vals[{p}]" for p in range(n))
     named = name_check if mode == "ordered" else "let _ = line;"
+    labels_check = ""
+    if mode == "unordered3":
+        labels_check = f"""let labels = parse_pattern_labels(&msg);
+            let n_first = expected.len() - {n};
+            let want_labels: Vec<Option<usize>> = (0..expected.len()).map(|k| Some(if k < n_first {{ 1 }} else {{ 2 }})).collect();
+            if labels != want_labels {{
+                return Err(format!("arguments {{vals:?}}: each entry must carry the index of the pattern that rejected the position ({{want_labels:?}}), the report has {{labels:?}}; message: {{msg}}"));
+            }}"""
     return f"""    #[unimock(api=Mk)]
     pub trait Tr {{
         fn f(&self, {params}) -> u32;
@@ -346,6 +394,7 @@ def render_b(idx, pats, mode):
             if entries != want {{
                 return Err(format!("arguments {{vals:?}} against ({pat_text}): the report must list exactly the rejected positions with their values {{want:?}}, it lists {{entries:?}}; message: {{msg}}"));
             }}
+            {labels_check}
         }}
         Ok(())
     }}
@@ -412,6 +461,17 @@ impl core::fmt::Debug for Hid {
     fn fmt(&self, f: &mut core::fmt::Formatter<'_>) -> core::fmt::Result {
         write!(f, "Hid({})", self.0)
     }
+}
+
+/// The `call pattern #k` label of every mismatch entry, in order of appearance (None = no label).
+pub fn parse_pattern_labels(msg: &str) -> Vec<Option<usize>> {
+    msg.match_indices(" mismatch for ")
+        .map(|(i, m)| {
+            msg[i + m.len()..]
+                .strip_prefix("call pattern #")
+                .and_then(|r| r.chars().take_while(|c| c.is_ascii_digit()).collect::<String>().parse().ok())
+        })
+        .collect()
 }
 
 /// Listed entries against expected ones; an expected value starting with `~` must be contained.
@@ -489,6 +549,9 @@ def instances(tier):
         errs = errs_full if (len(l) != 2 or quick) else ["no_impl", "no_match", "ordered_mismatch", "explicit"]
         for e in errs:
             add(f"render:{','.join(l)}/{e}", render_a(len(insts), l, e), {"part": "A"})
+    for roles in itertools.permutations(["f", "g", "h"], 3):
+        add(f"wrong-order:{roles[0]}-then-{roles[1]}/stub-on-{roles[2]}", render_wrong_order(len(insts), roles[0], roles[1], roles[2]), {"part": "A"})
+        add(f"wrong-order:{roles[0]}-then-{roles[1]}/no-stub", render_wrong_order(len(insts), roles[0], roles[1], None), {"part": "A"})
     for bound_form in ("inline", "where", "none"):
         for e in ("no_impl", "no_match"):
             add(f"render-trait-generic:{bound_form}/{e}", render_trait_generic(len(insts), bound_form, e), {"part": "A"})
@@ -499,7 +562,9 @@ def instances(tier):
                 continue
             if quick and n == 3 and pats.count("_") == 0:
                 continue
-            for mode in ("unordered", "unordered2", "ordered", "ordered2", "ordered-multiline"):
+            for mode in ("unordered", "unordered2", "unordered3", "ordered", "ordered2", "ordered-multiline"):
+                if mode == "unordered3" and (n == 3 or (quick and pats.count("_") == 0)):
+                    continue
                 if mode == "ordered2" and (n == 3 and quick):
                     continue
                 if mode == "unordered2" and (quick or n == 3):
@@ -570,7 +635,7 @@ def run(pid, tier, replay, start):
     cov = {
         "evaluations": len(kept),
         "distinct_nontrivial": len(set(i.key for i in kept)),
-        "rule": "(A) parameter lists of arity 1 (all 12 kinds), arity 2 (all ordered pairs; quick: a cycle of pairs), four lists of arity 3-4 x 9 mock-induced error kinds, exact message text predicted by the generator; (B) every tuple of 2-3 sub-patterns over {1, _, 0 | 2, eq!(&1), ne!(&1)} x every failing argument tuple of {0,1,2}^n, in unordered (one / two patterns) and ordered mode, typed positions (Option<u8>, &str with string-literal or-patterns, char with ranges, a type whose Debug rendering hides the field == reads, under eq!/ne!), mismatch entries parsed from the message; every instance is non-trivial (a message is produced and compared); distinct = distinct instance keys",
+        "rule": "(A) parameter lists of arity 1 (all 12 kinds), arity 2 (all ordered pairs; quick: a cycle of pairs), four lists of arity 3-4 x 9 mock-induced error kinds, exact message text predicted by the generator, plus the wrong-order message for every assignment of {first ordered, second ordered, unordered stub} to three methods; (B) every tuple of 2-3 sub-patterns over {1, _, 0 | 2, eq!(&1), ne!(&1)} x every failing argument tuple of {0,1,2}^n, in unordered (one / two / three patterns, entries labelled with their pattern's index) and ordered mode, typed positions (Option<u8>, &str with string-literal or-patterns, char with ranges, a type whose Debug rendering hides the field == reads, under eq!/ne!), mismatch entries parsed from the message; every instance is non-trivial (a message is produced and compared); distinct = distinct instance keys",
         "samples": [{"instance": a[len(a) // 2].key, "code": a[len(a) // 2].code[:900]}, {"instance": b[len(b) // 2].key}],
         "exhaustive": True,
         "rendering_instances": len(a),
